@@ -103,6 +103,43 @@ def fw_random_levels(rng, nmax, labels=LABELS):
     return [0, heap]
 
 
+def fw_random_cb(rng, nmax, labels=LABELS):
+    """aimed at the hypothesis of roundtrip_framework_callbacks_partial (the driver decides): a tree of
+    non-callback edges below a plain main, plain nodes (early + callback fields) and generator nodes
+    (early + late fields), levels as in fw_random_levels, callback edges anywhere"""
+    n = rng.randint(2, nmax)
+    gen = [False] + [rng.random() < 0.4 for _ in range(n - 1)]
+    lev = [3] + [0] * (n - 1)
+    fields = [[] for _ in range(n)]
+    for i in range(1, n):
+        j = rng.randrange(i)
+        if gen[j] and rng.random() < 0.6:
+            lev[i] = lev[j]
+            fields[j].append(["l", "ref", i])
+        else:
+            lev[i] = max(lev[j] - 1, 0)
+            if lev[i] == lev[j]:
+                gen[j] = True if j != 0 else False
+                fields[j].append(["l" if j != 0 else "e", "ref", i])
+            else:
+                fields[j].append(["e", "ref", i])
+    for i in range(n):
+        for _ in range(rng.choice([0, 1, 1, 2])):
+            r = rng.random()
+            if r < 0.15:
+                fields[i].append(["e", "lit", rng.randint(0, 9)])
+            elif r < 0.3:
+                fields[i].append(["e", "str", rng.choice(["a", "st__a", ""])])
+            elif gen[i]:
+                same = [j for j in range(n) if lev[j] <= lev[i] and j != 0]
+                if same:
+                    fields[i].append(["l", "ref", rng.choice(same)])
+            else:
+                fields[i].append(["c", "ref", rng.randrange(n)])
+        rng.shuffle(fields[i])
+    return [0, [[rng.randint(0, 3), rng.choice(labels), fields[i]] for i in range(n)]]
+
+
 class Fw(Family):
     name = "fw"
     exhaustive = False
@@ -126,8 +163,10 @@ class Fw(Family):
                     yield [0, [[1, "a", f0], [2, "a", f1]]]
         n = 12000 if tier == "quick" else 200000
         for i in range(n):
-            m = i % 5
-            if m == 4:
+            m = i % 6
+            if m == 5:
+                yield fw_random_cb(rng, 7)
+            elif m == 4:
                 yield fw_random_levels(rng, 7)
             elif m == 0:   # inside the hypothesis of the proved theorem: acyclic, early, named references
                 yield fw_random(rng, 7, p_own=0.0, p_late=0.0, p_cb=0.0, acyclic=True)
@@ -1022,7 +1061,7 @@ def pre_build():
 PROP = Property(
     id="C02",
     title="A saved session restores to an observationally equivalent session",
-    theorems=["C02.names_injective", "C02.disambiguate_total_fresh", "C02.string_prefix_safe", "C02.old_label_reads_as_literal", "C02.roundtrip_framework_partial", "C02.roundtrip_framework_cycles_partial", "C02.declared_ids_denote_declared_names", "C02.dispatch_matches_observed", "C02.table_offenders_nil", "C02.no_silent_fallthrough"],
+    theorems=["C02.names_injective", "C02.disambiguate_total_fresh", "C02.string_prefix_safe", "C02.old_label_reads_as_literal", "C02.roundtrip_framework_partial", "C02.roundtrip_framework_cycles_partial", "C02.roundtrip_framework_callbacks_partial", "C02.declared_ids_denote_declared_names", "C02.dispatch_matches_observed", "C02.table_offenders_nil", "C02.no_silent_fallthrough"],
     families=[Fw(), Cls(), Sess(), SessFiles()],
     pre_build=pre_build,
     trusted_base=["JSON, base64, np.save/np.load, FITS/HDF5/CSV readers (astropy, h5py, pandas) are trusted codecs",
